@@ -1165,6 +1165,16 @@ def engine_conc(pid, tier, evidence=True, focus=None):
     if only_av:
         mconfigs = mconfigs[:1]
     for backend, nreq, shapes, seeds in mconfigs:
+        if nreq >= 3:
+            # three overlapping requests: the state space no longer finishes (hours); TLC's simulation mode checks the invariants
+            # on 160 000 random behaviours of the same model instead (no schedules are taken from it)
+            cfg3 = write_cfg(f"conc3_{os.getpid()}_{backend}.cfg", conc_cfg_text(backend, True, nreq, shapes, seeds, emit=False))
+            out = tlc("MC_Conc.tla", cfg3, workers=8, timeout=1800, extra=["-simulate", "num=20000", "-depth", "200"])
+            m3 = re.search(r"Progress: (\d+) states checked, (\d+) traces generated[^\n]*\nThe number of states generated", out)
+            if "Error" in out or "is violated" in out or not m3:
+                raise ToolError(f"TLC (simulation) reports an error on the concurrency model ({backend},{shapes},{seeds},{nreq} requests):\n" + ("\n".join(tlc_error_summary(out)) or out[-3000:]))
+            model_runs.append(dict(backend=backend, nreq=nreq, shapes=shapes, seeds=seeds, mode="simulation", states_checked=int(m3.group(1)), behaviours=int(m3.group(2))))
+            continue
         out, scheds, st = conc_model(backend, True, nreq, shapes, seeds, timeout=900 if tier == "quick" else 3600)
         if not tlc_ok(out):
             raise ToolError(f"TLC reports an error on the concurrency model ({backend},{shapes},{seeds}):\n" + ("\n".join(tlc_error_summary(out)) or out[-3000:]))
